@@ -886,6 +886,14 @@ class Exec(Engine):
 
     def call_contract(self, fn, c, fv, args, kwargs, st, node=None):
         env = self.bind_args(fn, args, kwargs, st, fv.self)
+        for pn, key in c.sorts.items():
+            if pn in env:
+                for p in self.models.plugins:
+                    if hasattr(p, 'coerce_arg'):
+                        r = p.coerce_arg(self, env[pn], key, st)
+                        if r is not None:
+                            env[pn] = r
+                            break
         pre = st
         line = getattr(node, 'lineno', 0)
         caller = self.frame.fn.qual if self.frame.fn else '?'
